@@ -84,31 +84,23 @@ class TruncAnalysis:
                 srcs.add(c.func.value.id)
         if not srcs:
             return False
-        # statements that precede `node` in its enclosing blocks
-        cur = node
-        while cur is not None:
-            par = self.pm.get(cur)
-            if par is None:
-                break
-            for fld in ("body", "orelse"):
-                blk = getattr(par, fld, None)
-                if isinstance(blk, list) and any(cur is s for s in blk):
-                    for s in blk:
-                        if s is cur:
-                            break
-                        if isinstance(s, ast.If) and any(isinstance(x, ast.Raise) for x in s.body):
-                            # every source P is bounded by a raising test `(P >= L).any()` / `(P > L).any()`
-                            from sa.astutil import oriented
-                            bounded = set()
-                            for c in ast.walk(s.test):
-                                if isinstance(c, ast.Call) and isinstance(c.func, ast.Attribute) and c.func.attr == "any":
-                                    for p in srcs:
-                                        o = oriented(c.func.value, lambda e, p=p: isinstance(e, ast.Name) and e.id == p)
-                                        if o and o[0] in ("ge", "gt"):
-                                            bounded.add(p)
-                            if srcs <= bounded:
-                                return True
-            cur = par
+        # the slice is only reached when a test `(P >= L).any()` / `(P > L).any()` is false: as the complement of a guard clause
+        # (`if ...: raise`) or in the else arm of that test
+        from sa.astutil import guards_of, oriented
+        for t, pol in guards_of(self.pm, node):
+            while isinstance(t, ast.UnaryOp) and isinstance(t.op, ast.Not):
+                t, pol = t.operand, not pol
+            if pol or (isinstance(t, ast.BoolOp) and isinstance(t.op, ast.And)):
+                continue  # (the negation of a conjunction bounds nothing)
+            bounded = set()
+            for c in ast.walk(t):
+                if isinstance(c, ast.Call) and isinstance(c.func, ast.Attribute) and c.func.attr == "any":
+                    for p in srcs:
+                        o = oriented(c.func.value, lambda e, p=p: isinstance(e, ast.Name) and e.id == p)
+                        if o and o[0] in ("ge", "gt"):
+                            bounded.add(p)
+            if srcs <= bounded:
+                return True
         return False
 
     def _run(self):
